@@ -362,6 +362,12 @@ theorem ext_validateMember (input : DataType) (isEnum : Bool) (tps : List TypePa
       apply ext_barkAtMemberAttr
       exact h2
 
+theorem ext_updatePass (input : DataType) (x : TraitAttrCore × Kind) (es : Errors) (m : String) (hm : m ∈ es) :
+    m ∈ updatePass input es x := by
+  unfold updatePass
+  repeat' split
+  all_goals first | exact mem_insert_of_mem _ _ _ hm | exact hm
+
 /-- everything that happens in `validate` after the two struct-attribute stages only adds diagnostics -/
 theorem validate_tail_ext (input : DataType) (es : Errors) (m : String) (hm : m ∈ es) :
     m ∈ (let attrs := input.attrs
@@ -371,6 +377,7 @@ theorem validate_tail_ext (input : DataType) (es : Errors) (m : String) (hm : m 
          let es := validateChildParentsAttrs attrs.childParentsAttrs typePaths es
          let es := validateWhereAttrs attrs.whereAttrs typePaths es
          let byKind := attrsByKind attrs
+         let es := byKind.foldl (updatePass input) es
          let es := input.members.foldl (validateMember input isEnum typePaths byKind) es
          match input with
          | .struct s => validateFields s byKind typePaths es
@@ -382,9 +389,10 @@ theorem validate_tail_ext (input : DataType) (es : Errors) (m : String) (hm : m 
     (fun k es hm => ext_validateGhostAttrs _ _ _ es m hm) hm
   have h2 := ext_validateChildParentsAttrs input.attrs.childParentsAttrs (input.attrs.attrs.map (·.core.ty)) _ m h1
   have h3 := ext_validateWhereAttrs input.attrs.whereAttrs (input.attrs.attrs.map (·.core.ty)) _ m h2
+  have h3' := mem_foldl_of_mem (attrsByKind input.attrs) (updatePass input) _ m (fun x es hm => ext_updatePass input x es m hm) h3
   have h4 := mem_foldl_of_mem input.members
     (validateMember input (match input with | .enum _ => true | .struct _ => false) (input.attrs.attrs.map (·.core.ty)) (attrsByKind input.attrs)) _ m
-    (fun member es hm => ext_validateMember _ _ _ _ member es m hm) h3
+    (fun member es hm => ext_validateMember _ _ _ _ member es m hm) h3'
   cases input with
   | struct s => exact ext_validateFields _ _ _ _ _ h4
   | enum e =>
@@ -505,9 +513,10 @@ theorem C15_complete_R4_where_validate (input : DataType) (wa : WhereAttr) (tp :
         (validateKinds.foldl (fun es k => validateStructAttrs (input.attrs.iterForKindCore k false) false es)
           (validateErrorInstrs (match input with | .enum _ => true | .struct _ => false) input.attrs.errorInstrs
             (if input.attrs.attrs.isEmpty then ["At least one trait instruction is expected."] else []))))))
+  have h3' := mem_foldl_of_mem (attrsByKind input.attrs) (updatePass input) _ _ (fun x es hm => ext_updatePass input x es _ hm) h3
   have h4 := mem_foldl_of_mem input.members
     (validateMember input (match input with | .enum _ => true | .struct _ => false) (input.attrs.attrs.map (·.core.ty)) (attrsByKind input.attrs)) _ _
-    (fun member es hm => ext_validateMember _ _ _ _ member es _ hm) h3
+    (fun member es hm => ext_validateMember _ _ _ _ member es _ hm) h3'
   cases input with
   | struct s => exact ext_validateFields _ _ _ _ _ h4
   | enum e =>
@@ -517,6 +526,76 @@ theorem C15_complete_R4_where_validate (input : DataType) (wa : WhereAttr) (tp :
         repeat' split
         all_goals first | exact mem_insert_of_mem _ _ _ hm | exact hm) h4
     exact mem_foldl_of_mem _ _ _ _ (fun v es hm => ext_validateVariantFields v _ es _ hm) h5
+
+/-- whatever the update stage reports for one (instruction, kind) pair is in the final list -/
+theorem update_stage_reported (input : DataType) (x : TraitAttrCore × Kind) (hx : x ∈ attrsByKind input.attrs) (m : String)
+    (hstep : ∀ es, m ∈ updatePass input es x) : m ∈ validate input := by
+  unfold validate
+  simp only
+  have h3' := mem_foldl_of_step (attrsByKind input.attrs) (updatePass input)
+    (validateWhereAttrs input.attrs.whereAttrs (input.attrs.attrs.map (·.core.ty))
+      (validateChildParentsAttrs input.attrs.childParentsAttrs (input.attrs.attrs.map (·.core.ty))
+        (validateKinds.foldl (fun es k => validateGhostAttrs k input.attrs.ghostsAttrs (input.attrs.attrs.map (·.core.ty)) es)
+          (validateKinds.foldl (fun es k => validateStructAttrs (input.attrs.iterForKindCore k true) true es)
+            (validateKinds.foldl (fun es k => validateStructAttrs (input.attrs.iterForKindCore k false) false es)
+              (validateErrorInstrs (match input with | .enum _ => true | .struct _ => false) input.attrs.errorInstrs
+                (if input.attrs.attrs.isEmpty then ["At least one trait instruction is expected."] else [])))))))
+    m x hx (fun y es hm => ext_updatePass input y es m hm) hstep
+  have h4 := mem_foldl_of_mem input.members
+    (validateMember input (match input with | .enum _ => true | .struct _ => false) (input.attrs.attrs.map (·.core.ty)) (attrsByKind input.attrs)) _ _
+    (fun member es hm => ext_validateMember _ _ _ _ member es _ hm) h3'
+  cases input with
+  | struct s => exact ext_validateFields _ _ _ _ _ h4
+  | enum e =>
+    have h5 := mem_foldl_of_mem ((DataType.enum e).attrs.ghostsAttrs.flatMap (fun x => x.attr.ghostData)) (fun es g => enumGhostIdentPass g es) _ _
+      (fun g es hm => by
+        unfold enumGhostIdentPass
+        repeat' split
+        all_goals first | exact mem_insert_of_mem _ _ _ hm | exact hm) h4
+    exact mem_foldl_of_mem _ _ _ _ (fun v es hm => ext_validateVariantFields v _ es _ hm) h5
+
+/-- C15 (struct update syntax outside a struct expression, end to end): `..expr` on an instruction that requests an
+    into_existing conversion is reported, whichever of the instructions it is and whatever else the input holds -/
+theorem C15_update_into_existing_reported (input : DataType) (a : TraitAttrCore) (k : Kind) (u : TS)
+    (hx : (a, k) ∈ attrsByKind input.attrs) (hu : a.update = some u) (hk : k.isIntoExisting = true) :
+    "Struct update syntax '..' is not applicable to 'into_existing' instructions: there is no struct expression to complete." ∈ validate input := by
+  apply update_stage_reported input (a, k) hx
+  intro es
+  have hf : k.isFrom = false := by cases k <;> simp_all [Kind.isFrom, Kind.isIntoExisting]
+  simp only [updatePass, hu, hk, hf, Option.isSome_some, Bool.not_false, Bool.and_self, if_true]
+  exact mem_insert_self _ _
+
+/-- … and so is `..expr` on an Into instruction whose counterpart is built from its default value (a parameterless
+    `#[parent]` member) -/
+theorem C15_update_next_to_parent_reported (input : DataType) (a : TraitAttrCore) (k : Kind) (u : TS)
+    (hx : (a, k) ∈ attrsByKind input.attrs) (hu : a.update = some u) (hf : k.isFrom = false) (hk : k.isIntoExisting = false)
+    (hp : input.members.any (fun m => m.attrs.hasParameterlessParentAttr a.ty) = true) :
+    ("Struct update syntax '..' is not applicable next to a parameterless #[parent] member: " ++ a.ty.pathStr ++ " is built from its default value.") ∈ validate input := by
+  apply update_stage_reported input (a, k) hx
+  intro es
+  simp only [updatePass, hu, hk, hf, hp, Option.isSome_some, Bool.not_false, Bool.and_self, if_true, Bool.false_eq_true, if_false]
+  exact mem_insert_self _ _
+
+/-- C17 / C08 consequence: in an accepted input `..expr` only ever meets a struct expression — a From conversion, or an
+    Into conversion in the plain dialect -/
+theorem C15_accepted_update_has_struct_expression (input : DataType) (hv : validate input = [])
+    (a : TraitAttrCore) (k : Kind) (u : TS) (hx : (a, k) ∈ attrsByKind input.attrs) (hu : a.update = some u) :
+    k.isFrom = true ∨ (k.isIntoExisting = false ∧ input.members.any (fun m => m.attrs.hasParameterlessParentAttr a.ty) = false) := by
+  cases hf : k.isFrom with
+  | true => exact Or.inl rfl
+  | false =>
+    right
+    cases hk : k.isIntoExisting with
+    | true =>
+      have := C15_update_into_existing_reported input a k u hx hu hk
+      rw [hv] at this; cases this
+    | false =>
+      refine ⟨rfl, ?_⟩
+      cases hp : input.members.any (fun m => m.attrs.hasParameterlessParentAttr a.ty) with
+      | false => rfl
+      | true =>
+        have := C15_update_next_to_parent_reported input a k u hx hu hf hk hp
+        rw [hv] at this; cases this
 
 /-! ### level dispatch (*tables*, regenerated): which names are instructions at which level, and what a name written at
 the wrong level is answered with -/
